@@ -15,7 +15,7 @@ RULE = ('Cases = scene (layered, split_candidate, merge_chain, exact_counts, ref
         '(nested partial assignment over existing leaves) x nested partial assignment P (2-8 leaves over all sections) x '
         '0-2 unknown keys at any depth x a subset of top-level names for reset_prms. Differential oracle, bit-exact on '
         'chunk.prms, the three tables, chunk.data and the three messages: run(data, prms=P) == edit the global leaf by leaf '
-        'then run(data) == dump P to YAML (ruamel, round-trip pre-checked) + set_prms + run(data), all on top of G0; '
+        'then run(data) == dump P to YAML (ruamel, round-trip pre-checked) + set_prms + run(data), all on top of G0, and the same file applied a second time after the global was changed behind its back (named reset + in-place edits); '
         'poisoned global: every leaf named by P is set to the string "POISON" in the global, the per-call result must not '
         'change; unknown keys: at least one AmpycloudWarning, key sets of chunk.prms identical to the global\'s at every '
         'depth, result unchanged; reset_prms(which): the named entries deep-equal a fresh read of the packaged YAML and '
@@ -146,6 +146,18 @@ def check(case):
                 d = diff_outcome(r1, r3)
                 if d:
                     res.fail('routes', 'per-call route and YAML route disagree', f'{d} {detail}')
+                res.evals += 1
+                # history: the global set is changed behind the file's back (named reset of the sections P
+                # touches + in-place edits), then the very same file is applied again
+                ampycloud.reset_prms(which=sorted(P))
+                set_global(dynamic.AMPYCLOUD_PRMS, G0)
+                dynamic.AMPYCLOUD_PRMS['MAX_HOLES_OKTA8'] = G0.get('MAX_HOLES_OKTA8', 1)
+                ampycloud.set_prms(pth)
+                r3b = outcome(ampycloud.run(frame))
+                d = diff_outcome(r1, r3b)
+                if d:
+                    res.fail('routes', 'YAML route applied a second time (same file, global changed in between) '
+                             'disagrees with the per-call route', f'{d} {detail}')
                 res.evals += 1
             else:
                 res.skipped = 'YAML round trip of P not exact'
